@@ -1,4 +1,6 @@
 import ApdVerif.Model.Arith
+import ApdVerif.Model.Conv
+import ApdVerif.Spec.Order
 import ApdVerif.Oracle.Exact
 import ApdVerif.Oracle.Ops
 import ApdVerif.Driver.Proto
@@ -133,9 +135,160 @@ def handleCtxOp (id : String) (t : List String) : Option (List String × Nat × 
     some ([s!"{id} PROPFAIL C04 {what}"], 0, 1)
   | _ => none
 
+/-- compare a model value with the implementation's, as strings -/
+def cmpRes (id what model impl : String) : List String × Nat × Nat :=
+  if model == impl then ([], 0, 0) else ([s!"{id} MISMATCH {what} model= {model}"], 1, 0)
+
+def merge (a b : List String × Nat × Nat) : List String × Nat × Nat :=
+  (a.1 ++ b.1, a.2.1 + b.2.1, a.2.2 + b.2.2)
+
+def propfail (id prop why : String) : List String × Nat × Nat := ([s!"{id} PROPFAIL {prop} {why}"], 0, 1)
+
+def sameReprB (d x : Dec) : Bool :=
+  d.form == x.form && d.neg == x.neg &&
+  (match d.form with
+   | .finite => d.coeff == x.coeff && d.exp == x.exp
+   | .infinite => true
+   | _ => d.coeff == x.coeff)
+
+/-- `numdigits <int> => <n>` : NumDigits on a big integer (C19, C04) -/
+def handleNumDigits (id : String) (t : List String) : Option (List String × Nat × Nat) :=
+  match t with
+  | [b, "=>", r] => do
+    let bi ← b.toInt?
+    if r == "PANIC" || r == "HANG" then return propfail id "C04" s!"NumDigits {r}"
+    let ri ← r.toInt?
+    let m := numDigitsImpl bi
+    let res := cmpRes id "result" (toString m) (toString ri)
+    let spec := ndigits bi.natAbs
+    if ri != (spec : Int) then
+      return merge res (merge (propfail id "C19" s!"NumDigits returned {ri}, the integer has {spec} digits") (propfail id "C04" "-"))
+    return res
+  | _ => none
+
+/-- `order3 x y z => c(x,y) c(y,x) c(y,z) c(x,z) t(x,y) t(y,x) t(y,z) t(x,z)` (C15) -/
+def handleOrder3 (id : String) (t : List String) : Option (List String × Nat × Nat) :=
+  match t with
+  | [xs, ys, zs, "=>", cxy, cyx, cyz, cxz, txy, tyx, tyz, txz] => do
+    let x := (← parseDec xs).d
+    let y := (← parseDec ys).d
+    let z := (← parseDec zs).d
+    let cxy ← cxy.toInt?; let cyx ← cyx.toInt?; let cyz ← cyz.toInt?; let cxz ← cxz.toInt?
+    let txy ← txy.toInt?; let tyx ← tyx.toInt?; let tyz ← tyz.toInt?; let txz ← txz.toInt?
+    let model := s!"{x.cmp y} {y.cmp x} {y.cmp z} {x.cmp z} {x.cmpTotal y} {y.cmpTotal x} {y.cmpTotal z} {x.cmpTotal z}"
+    let impl := s!"{cxy} {cyx} {cyz} {cxz} {txy} {tyx} {tyz} {txz}"
+    let mut r := cmpRes id "result" model impl
+    let nn (d : Dec) := !d.isNaN
+    -- Cmp is the sign of the exact difference on non-NaN operands
+    if nn x && nn y && cxy != specCmp x y then r := merge r (propfail id "C15" s!"Cmp(x,y)={cxy}, exact order {specCmp x y}")
+    if nn x && nn y && cyx != specCmp y x then r := merge r (propfail id "C15" s!"Cmp(y,x)={cyx}, exact order {specCmp y x}")
+    if nn y && nn z && cyz != specCmp y z then r := merge r (propfail id "C15" s!"Cmp(y,z)={cyz}, exact order {specCmp y z}")
+    if nn x && nn z && cxz != specCmp x z then r := merge r (propfail id "C15" s!"Cmp(x,z)={cxz}, exact order {specCmp x z}")
+    -- CmpTotal: antisymmetric, transitive, zero exactly on identical representations, agrees with Cmp
+    if tyx != -txy then r := merge r (propfail id "C15" "CmpTotal not antisymmetric")
+    if txy ≤ 0 && tyz ≤ 0 && !(txz ≤ 0) then r := merge r (propfail id "C15" "CmpTotal not transitive")
+    if txy ≥ 0 && tyz ≥ 0 && !(txz ≥ 0) then r := merge r (propfail id "C15" "CmpTotal not transitive")
+    if (txy == 0) != sameReprB x y then r := merge r (propfail id "C15" "CmpTotal zero iff identical representation")
+    if nn x && nn y && specCmp x y != 0 && txy != specCmp x y then r := merge r (propfail id "C15" "CmpTotal disagrees with Cmp on different values")
+    if x.cmpOrder < y.cmpOrder && txy != -1 then r := merge r (propfail id "C15" "CmpTotal form order")
+    if x.form == .finite && y.form == .finite && x.neg == y.neg && specCmp x y == 0 && x.exp < y.exp &&
+        txy != (if x.neg then 1 else -1) then r := merge r (propfail id "C15" "CmpTotal exponent tie-break")
+    return r
+  | _ => none
+
+def intValueOf (d : Dec) : Option Int :=
+  -- the integer denoted by a finite decimal, if it is one
+  if d.exp ≥ 0 then some ((if d.neg then -1 else 1) * ((d.coeff * 10 ^ d.exp.toNat : Nat) : Int))
+  else
+    let p := 10 ^ (-d.exp).toNat
+    if d.coeff % p == 0 then some ((if d.neg then -1 else 1) * ((d.coeff / p : Nat) : Int)) else none
+
+/-- `int64 d => <v>|err` (C17) -/
+def handleInt64 (id : String) (t : List String) : Option (List String × Nat × Nat) :=
+  match t with
+  | [ds, "=>", r] => do
+    let d := (← parseDec ds).d
+    if r == "PANIC" || r == "HANG" then return propfail id "C04" s!"Int64 {r}"
+    let m := match int64Op d with | some v => toString v | none => "err"
+    let mut res := cmpRes id "result" m r
+    let spec : Option Int :=
+      if d.form != .finite then none else
+      match intValueOf d with
+      | some v => if -2 ^ 63 ≤ v && v ≤ 2 ^ 63 - 1 then some v else none
+      | none => none
+    let specS := match spec with | some v => toString v | none => "err"
+    if specS != r then res := merge res (propfail id "C17" s!"Int64 returned {r}, exact answer {specS}")
+    return res
+  | _ => none
+
+/-- `modf d => integ frac` with `-` for a nil output (C17) -/
+def handleModf (id : String) (t : List String) : Option (List String × Nat × Nat) :=
+  match t with
+  | [ds, "=>", is, fs] => do
+    let d := (← parseDec ds).d
+    if is == "PANIC" || is == "HANG" then return propfail id "C04" s!"Modf {is}"
+    let m := modf d
+    let mut res : List String × Nat × Nat := ([], 0, 0)
+    let integ? ← if is == "-" then some none else (parseDec is).map (fun p => some p.d)
+    let frac? ← if fs == "-" then some none else (parseDec fs).map (fun p => some p.d)
+    match integ? with
+    | some i => res := merge res (cmpRes id "integ" (showDec m.1) (showDec i))
+    | none => pure ()
+    match frac? with
+    | some f => res := merge res (cmpRes id "frac" (showDec m.2) (showDec f))
+    | none => pure ()
+    -- specification on the implementation's outputs
+    if d.form == .finite then
+      match integ? with
+      | some i =>
+        if !(i.form == .finite && i.neg == d.neg && i.exp ≥ 0) then res := merge res (propfail id "C17" "integ is not an integer with d's sign and exponent >= 0")
+        let e := min d.exp 0
+        let want := (d.coeff * 10 ^ (d.exp - e).toNat) / 10 ^ (-e).toNat
+        if i.coeff * 10 ^ i.exp.toNat != want then res := merge res (propfail id "C17" s!"integ value wrong, expected {want}")
+      | none => pure ()
+      match frac? with
+      | some f =>
+        if !(f.form == .finite && f.neg == d.neg && f.exp ≤ 0 && f.coeff < 10 ^ (-f.exp).toNat) then
+          res := merge res (propfail id "C17" "frac is not a fraction below one with d's sign")
+        let e := min d.exp 0
+        let want := (d.coeff * 10 ^ (d.exp - e).toNat) % 10 ^ (-e).toNat
+        -- frac value scaled to 10^e
+        let got := if f.exp ≥ e then f.coeff * 10 ^ (f.exp - e).toNat else f.coeff / 10 ^ (e - f.exp).toNat
+        if f.coeff != 0 && got != want then res := merge res (propfail id "C17" s!"frac value wrong")
+        if f.coeff == 0 && want != 0 then res := merge res (propfail id "C17" s!"frac value wrong")
+      | none => pure ()
+    return res
+  | _ => none
+
+/-- `reduced x => d n` : Decimal.Reduce (C19) -/
+def handleReduced (id : String) (t : List String) : Option (List String × Nat × Nat) :=
+  match t with
+  | [xs, "=>", ds, ns] => do
+    let x := (← parseDec xs).d
+    if ds == "PANIC" || ds == "HANG" then return propfail id "C04" s!"Reduce {ds}"
+    let d := (← parseDec ds).d
+    let n ← ns.toInt?
+    let m := reduceD x
+    let mut res := merge (cmpRes id "result" (showDec m.1) (showDec d)) (cmpRes id "count" (toString m.2) (toString n))
+    if x.form == .finite then
+      if x.coeff == 0 then
+        if !(d.form == .finite && d.coeff == 0 && d.exp == 0 && n == 0) then res := merge res (propfail id "C19" "Reduce of zero is not 0E0 with count 0")
+      else
+        let z := (stripZeros x.coeff).2
+        if !(d.form == .finite && d.neg == x.neg && d.coeff % 10 != 0 && d.exp == x.exp + n &&
+             d.coeff * 10 ^ n.toNat == x.coeff && n == z) then
+          res := merge res (propfail id "C19" s!"Reduce: wrong value, trailing zero left, or count != {z}")
+    return res
+  | _ => none
+
 def handleLine (line : String) : Option (List String × Nat × Nat) :=
   match line.splitOn " " with
   | id :: "ctxop" :: rest => handleCtxOp id rest
+  | id :: "numdigits" :: rest => handleNumDigits id rest
+  | id :: "order3" :: rest => handleOrder3 id rest
+  | id :: "int64" :: rest => handleInt64 id rest
+  | id :: "modf" :: rest => handleModf id rest
+  | id :: "reduced" :: rest => handleReduced id rest
   | _ => none
 
 partial def loop (h : IO.FS.Stream) (out : IO.FS.Stream) (st : Stats) : IO Stats := do
